@@ -243,6 +243,9 @@ func Report(c *explore.Ctx, v reflect.Value, prefix string, ds []Disagreement, d
 	}
 }
 
+// ContainsDuration reports whether values of t contain a time.Duration (the sanctioned difference).
+func ContainsDuration(t reflect.Type, depth int) bool { return containsDuration(t, depth) }
+
 func containsDuration(t reflect.Type, depth int) bool {
 	if depth > 6 {
 		return false
@@ -434,7 +437,7 @@ func integers(c *explore.Ctx) {
 	case 2:
 		for sh := 0; sh < 64; sh++ {
 			for d := int64(-2); d <= 2; d++ {
-				vals = append(vals, int64(1)<<sh+d, -(int64(1) << sh)+d)
+				vals = append(vals, int64(1)<<sh+d, -(int64(1)<<sh)+d)
 				uvals = append(uvals, uint64(1)<<sh+uint64(d))
 			}
 		}
